@@ -489,12 +489,22 @@ def match_arms(text, table):
     return arms
 
 
+def eval_src(repo: Path) -> str:
+    """the evaluator's source as one text: every file under src/eval (and src/builtins), comments stripped — functions are
+    looked up in it by name or shape, so moving one to another file of the evaluator changes nothing"""
+    parts = []
+    for sub in ("src/eval", "src/builtins"):
+        for fp in sorted((repo / sub).rglob("*.rs")):
+            parts.append(strip_comments(fp.read_text()))
+    return "\n".join(parts)
+
+
 def binop_tables(repo: Path):
     """`apply_binary_operation`: for every operator the operand-kind pairs it has an arm for, and the integer / boolean
     primitive each arm uses.  Any arm shape that is not recognised (a guard, a wildcard on one side, a new delegate) is an
     extraction error, so that it cannot silently fall outside the table."""
     T = "binop_arms"
-    src = strip_comments((repo / "src/eval/mod.rs").read_text())
+    src = eval_src(repo)
     body = fn_body(src, "apply_binary_operation", T)
     m = re.search(r"\bmatch op \{", body)
     if not m:
@@ -589,7 +599,7 @@ def binop_tables(repo: Path):
 def eq_tables(repo: Path):
     """the operand-kind arms of `eq` (every other pair is the type error) and of `ref_eq` (every other pair is None)"""
     T = "eq_arms"
-    src = strip_comments((repo / "src/eval/mod.rs").read_text())
+    src = eval_src(repo)
     out = {}
     for fn, default_re in (("eq", r"Err\(\( String::new\(\), error::render_type\(lhs\), error::render_type\(rhs\), \)\)"),
                            ("ref_eq", r"None")):
@@ -643,7 +653,7 @@ def emit_binops(b):
 
 
 # ---------------------------------------------------------------------------- places where the host code can panic
-PANIC_KINDS = [("panic", r"\bpanic!\s*\("), ("unwrap", r"\.unwrap\(\)"), ("expect", r"\.expect\("), ("unreachable", r"\bunreachable!\s*\("),
+PANIC_KINDS = [("panic", r"\bpanic!\s*\("), ("unwrap", r"(?<!lock\(\))\.unwrap\(\)"), ("expect", r"(?<!lock\(\))\.expect\("), ("unreachable", r"\bunreachable!\s*\("),
                ("todo", r"\b(?:todo|unimplemented)!\s*\("), ("assert", r"\b(?:debug_)?assert(?:_eq|_ne)?!\s*\("),
                ("lock", r"\block_deref!\s*\(|\.try_lock\(\)|\.lock\(\)")]
 # (indexing, unchecked arithmetic and narrowing casts can panic too; they are far too common in harmless edits to pin down
@@ -678,10 +688,27 @@ def panic_tables(repo: Path):
     return [f"{f}:{fn}:{k}={n}" for (f, fn, k), n in sorted(rows.items())]
 
 
+def panic_totals(rows):
+    """the explicit panics of src/ per KIND, over the whole source (where a site lives — file, function — is not part of the
+    obligation: moving code between functions or files, or wrapping repeated lock-and-clone sequences into helpers, is
+    harmless; lock acquisitions are therefore left out of the totals, the alias streams of C02 exercise them)"""
+    tot = {k: 0 for k, _ in PANIC_KINDS if k != "lock"}
+    for r in rows:
+        kind, n = r.rsplit(":", 1)[1].split("=")
+        if kind in tot:
+            tot[kind] += int(n)
+    return [f"{k}={n}" for k, n in sorted(tot.items())]
+
+
 def emit_panics(rows):
-    L = ["/-- every place of src/ that can panic in the host language, as `file:function:kind=count` -/",
+    L = ["/-- every place of src/ that can panic in the host language, as `file:function:kind=count` (information: where the",
+         "    sites are; the audited obligation is `panicTotals`) -/",
          "def panicSites : List (List Char) := ["]
     L.append(",\n".join(f"  {lean_chars(x)}" for x in rows))
+    L.append("]\n")
+    L += ["/-- explicit panics of src/ per kind, whole source (lock acquisitions not counted) -/",
+          "def panicTotals : List (List Char) := ["]
+    L.append(",\n".join(f"  {lean_chars(x)}" for x in panic_totals(rows)))
     L.append("]\n")
     return "\n".join(L)
 
@@ -692,8 +719,9 @@ def bind_reject_tables(repo: Path):
     (`validate_args`): the expression kinds that are rejected as binding targets, with the description the diagnostic uses.
     Located by shape: any function containing such arms."""
     out = {}
-    for rel in ("src/eval/bind.rs", "src/eval/mod.rs"):
-        src = strip_comments((repo / rel).read_text())
+    for fp in sorted((repo / "src/eval").rglob("*.rs")):
+        rel = str(fp.relative_to(repo))
+        src = strip_comments(fp.read_text())
         for m in re.finditer(r"\bfn\s+(\w+)\s*[(<]", src):
             try:
                 body = fn_body(src, m.group(1), "bind_rejects")
@@ -704,7 +732,9 @@ def bind_reject_tables(repo: Path):
                 n_calls = len(re.findall(r"new_invalid_bind_error\(\"", body))
                 if n_calls != len(rows):
                     raise ExtractError("bind_rejects", f"{rel}: {n_calls} rejections in `{m.group(1)}` but {len(rows)} recognised arms")
-                key = Path(rel).name
+                # the parameter validator is the one that is not part of the binder (`bind_…`); which file either lives in
+                # does not matter
+                key = "bind.rs" if "bind" in m.group(1) else "mod.rs"
                 if key in out:
                     raise ExtractError("bind_rejects", f"{rel}: more than one function with binding rejections")
                 out[key] = rows
@@ -729,7 +759,7 @@ def iterable_tables(repo: Path):
     """the value kinds the `for` statement can walk: the arms of the function that turns a value into [key, value] pairs
     (located by shape: a function whose body is one `match` on a value with `Value::K(..)` arms building pairs and a
     rejecting default)"""
-    src = strip_comments((repo / "src/eval/mod.rs").read_text())
+    src = eval_src(repo)
     found = []
     for m in re.finditer(r"\bfn\s+(\w+)\s*\([^)]*\)\s*->\s*Result<Vec<\(SourcedValue, SourcedValue\)>>", src):
         body = fn_body(src, m.group(1), "iterables")
